@@ -26,7 +26,8 @@ method and on a body whose type is not the declared return type.
    control             `if cfg!(miri) {A} else {B}` -> B (miri is not the build under verification);
                        `#[cfg(feature = "std")] {A} #[cfg(not(feature = "std"))] {B}` -> selected by FLAGS (std build);
                        `if c {A} else {B}` on a translated boolean c -> Coq if
-   NOT in the fragment `+ - * /` on integers (overflow behaviour depends on the build profile), bit operations,
+   `/` and `%` on integers (panic on zero AND on MIN / -1 in every profile: i_div_op / i_rem_op)
+   NOT in the fragment `+ - *` on integers (overflow behaviour depends on the build profile), bit operations,
                        `let`, loops, early return, calls to free functions (the no_std helpers f32_sqrt_fast /
                        f32_abs_fast are only recorded, not translated: that branch is outside the property).
 """
@@ -384,6 +385,9 @@ class Compiler:
             self.err("operator `%s` applied to %s and %s" % (op.text, a.ty, b.ty), op)
         if is_float(a.ty) and op.text in FLOAT_BINOPS:
             return self.app(FLOAT_BINOPS[op.text], [a, b], a.ty)
+        if is_int(a.ty) and op.text in ("/", "%"):
+            # `/` and `%` panic on a zero divisor and on MIN / -1 in every profile: a partial primitive
+            return self.app(("i_div_op %s" if op.text == "/" else "i_rem_op %s") % sgw(a.ty), [a, b], a.ty, partial_result=True)
         if is_int(a.ty):
             self.err("operator `%s` on %s: its overflow behaviour depends on the build profile (panic in debug, wrap in "
                      "release); the math layer is specified with the explicit wrapping_* methods — outside the "
